@@ -1,6 +1,7 @@
 /-
   C08 — error recovery is transparent on success, loud on failure, and never silent.
 -/
+import ChumskyModel.Proofs.Lemmas.ExtResult
 import ChumskyModel.Proofs.Lemmas.Top
 import ChumskyModel.Proofs.Lemmas.NestedDelims
 set_option linter.unusedSimpArgs false
@@ -192,6 +193,40 @@ example :
       | _ => (none, [], 0)) = (some (.nat 7), [⟨(0, 1), .ef [.tok 97] (some 120), []⟩], 3) := by
   decide +kernel
 
+/-! ### recovery around (and inside) the extensions — a Pratt expression that does not parse, a group whose inner sequence is
+  ill-formed: `recover_with` in a grammar with extensions (`EEnv`) obeys the same three laws, the sub-parsers being read by `pegE`
+  (so `a` or the fallback may be, or contain, an extension reference), and the machine refines that reading -/
+
+theorem c08_extensions_refines (e : EEnv) (n : Nat) (env : Env) (m : Mode) (st : St) (hm : env.memoOn = false) (a r : G) :
+    Refines m st.errs st.ctx (runE e n env m (.recoverVia a r) st) (pegE e n env (.recoverVia a r) st.ss st.ctx) :=
+  runE_refines e n env m _ st hm
+
+theorem c08_extensions_transparent (e : EEnv) (n : Nat) (env : Env) (a r : G) (s : SS) (ctx : Val) {v s' em}
+    (h : pegE e n env a s ctx = .ok v s' em) : pegE e (n + 1) env (.recoverVia a r) s ctx = .ok v s' em := by
+  simp [pegE, EEnv.find, pegStep, h]
+
+theorem c08_extensions_via_recovers (e : EEnv) (n : Nat) (env : Env) (a r : G) (s : SS) (ctx : Val) {v s1 em}
+    (ha : pegE e n env a s ctx = .fail) (hr : pegE e n env r s ctx = .ok v s1 em) :
+    pegE e (n + 1) env (.recoverVia a r) s ctx = .ok v s1 (em ++ [.recovered s1.pos]) := by
+  simp [pegE, EEnv.find, pegStep, ha, hr]
+
+theorem c08_extensions_via_both_fail (e : EEnv) (n : Nat) (env : Env) (a r : G) (s : SS) (ctx : Val)
+    (ha : pegE e n env a s ctx = .fail) (hr : pegE e n env r s ctx = .fail) :
+    pegE e (n + 1) env (.recoverVia a r) s ctx = .fail := by
+  simp [pegE, EEnv.find, pegStep, ha, hr]
+
+/-- never silent: an accepted, error-free parse of a grammar with extensions is a success of the reading without emissions -/
+theorem c08_extensions_never_silent (e : EEnv) (n : Nat) (env : Env) (m : Mode) (g : G) (hm : env.memoOn = false)
+    (r : ParseResult) (f : St) (h : parseTopE e n env m g = .result r f) (v : Val) (ho : r.output = some v)
+    (he : r.errs = []) : ∃ v' s, pegTopE e n env g = .ok v' s [] := by
+  obtain ⟨v', s, h1, _, _⟩ := parseTopE_whole_input e n env m g hm r f h v ho he
+  exact ⟨v', s, h1⟩
+
+#print axioms c08_extensions_refines
+#print axioms c08_extensions_transparent
+#print axioms c08_extensions_via_recovers
+#print axioms c08_extensions_via_both_fail
+#print axioms c08_extensions_never_silent
 #print axioms c08_refines
 #print axioms c08_transparent
 #print axioms c08_via_recovers
